@@ -37,13 +37,10 @@ def call(f, *a):
         return None
 
 
-def observe(e, V, x, rng):
-    """All the ways the implementation can produce the number."""
+def build_all(e, V):
+    """All the ways the implementation can produce the number: name -> (callable, takes_dict)."""
     import optyx.core.compiler as C
-    obs = {}
     C._compile_cached.cache_clear()
-    names = [v.name for v in V]
-    d = {n: x[i] for i, n in enumerate(names)}
     with np.errstate(all="ignore"):
         try:
             f = C.compile_expression(e, V)
@@ -60,18 +57,23 @@ def observe(e, V, x, rng):
             ce = C.CompiledExpression(e, V)
         except Exception as ex:
             raise CompileTimeError(repr(ex)[:400])
-        obs["compiled"] = call(f, x)
-        obs["cached"] = call(f2, x)
-        obs["iterative"] = call(f3, x)
-        obs["dict_fn"] = call(f4, d)
-        obs["CompiledExpression.value"] = call(ce.value, x)
-        obs["evaluate"] = call(e.evaluate, d)
-    return obs
+    return {"compiled": (f, False), "cached": (f2, False), "iterative": (f3, False), "dict_fn": (f4, True),
+            "CompiledExpression.value": (ce.value, False), "evaluate": (e.evaluate, True)}
+
+
+def observe_calls(fns, V, x):
+    d = {v.name: x[i] for i, v in enumerate(V)}
+    with np.errstate(all="ignore"):
+        return {k: call(f, d if takes_dict else x) for k, (f, takes_dict) in fns.items()}
+
+
+def observe(e, V, x, rng):
+    return observe_calls(build_all(e, V), V, x)
 
 
 def run(rep: vk.Report):
     vk.proof_stage(rep, "C01", extra_trusted=["Interval library enclosure (SemI.evalI_correct) for the numeric channel"])
-    n_expr = 400 if rep.tier == "quick" else 10000
+    n_expr = 200 if rep.tier == "quick" else 10000
     rng = common.rng_for(rep.seed, "C01")
     from optyx import Variable
     cases, meta, keep = [], [], []
@@ -80,10 +82,9 @@ def run(rep: vk.Report):
     hits = {}
     kinds_hist = {}
     nontrivial = set()
-    for i in range(n_expr):
-        g = gen.Gen(random.Random(rng.random()), profile=rng.choice(["poly", "smooth", "smooth", "all", "all"]))
+    param_sets = [0]
+    for g, e in common.corpus(rng, rep.tier, n_expr, profiles=("poly", "smooth", "smooth", "all", "all"), errors=errors):
         try:
-            e = g.expr(rng.choice([2, 3, 4]))
             S = ser.Ser()
             te = S.expr(e)
         except ser.Unsupported:
@@ -93,14 +94,27 @@ def run(rep: vk.Report):
             hits[k] = hits.get(k, 0) + v
         vs = sorted(e.get_variables(), key=lambda v: v.name)
         extras = [Variable(f"extra{j}") for j in range(rng.randint(0, 3))]
-        V = vs + extras
-        rng.shuffle(V)
+        V = common.orders(vs, extras, rng)
         params = common.params_of(e)
-        for _ in range(2):
+        saved = {n: p.value for n, p in params.items()}
+        try:
+            fns = build_all(e, V)
+        except CompileTimeError as ex:
+            fns = None
+            cte = ex
+        # round 0 and 1: two points; round 2: every Parameter re-set AFTER compilation, same callables
+        for rnd in range(3 if params else 2):
             pt = common.pick_point(rng, [v.name for v in V])
             x = np.array([pt[v.name] for v in V], dtype=float)
+            if rnd == 2:
+                for n, p in params.items():
+                    if np.ndim(p.value) == 0:
+                        p.set(float(rng.choice([-1.5, 0.25, 2.0, 3.5, 0.0, 1.0])) + 0.0625 * rng.randrange(8))
+                        param_sets[0] += 1
             try:
-                obs = observe(e, V, x, rng)
+                if fns is None:
+                    raise cte
+                obs = observe_calls(fns, V, x)
             except CompileTimeError as ex:
                 key = type(ex).__name__
                 errors[key] = errors.get(key, 0) + 1
@@ -124,6 +138,8 @@ def run(rep: vk.Report):
                 kinds_hist[k] = kinds_hist.get(k, 0) + 1
             if len(ks) >= 2:
                 nontrivial.add(te)
+        for n, p in params.items():
+            p.set(saved[n])
     fails, und = common.run_classify(IMPORTS, "", common.NUM_TYPE, cases, common.NUM_CHECKER) if cases else ([], [])
     for i in fails:
         m = meta[i]
@@ -143,12 +159,14 @@ def run(rep: vk.Report):
     cov = rep.coverage
     cov["evaluations"] = len(cases) * 6
     cov["distinct_nontrivial"] = len(nontrivial)
-    cov["rule"] = ("API-built scalar expressions (seeded generator), V = random permutation of the variables plus 0-3 extras, two "
-                   "dyadic points each; six observations per case (compiled, cached, forced explicit-stack, dict function, "
+    cov["rule"] = ("API-built scalar expressions (seeded generator), V = adversarial orderings of the variables plus 0-3 extras (shuffle, natural, reversed, interior swap, "
+                   "interleaved extras, rotation, interior permutation), two dyadic points each plus a third after every Parameter was "
+                   "re-set on the already-compiled callables; six observations per case (compiled, cached, forced explicit-stack, dict function, "
                    "CompiledExpression.value, evaluate); distinct = distinct serialised tree, non-trivial = at least two node kinds")
     cov["samples"] = [c[:400] for c in cases[:3]]
     cov["node_kind_histogram"] = dict(sorted(kinds_hist.items()))
     cov["generator_hits"] = dict(sorted(hits.items()))
+    cov["parameter_updates_after_compile"] = param_sets[0]
     cov["numeric_cases"] = len(cases)
     cov["numeric_undecided_near_singularity"] = len(und)
     cov["numeric_decided"] = len(cases) - len(und)
